@@ -417,7 +417,8 @@ theorem dwtimesfp_err {xh xl f Q : Int} {U : Nat} (hU : 0 < U) (hfix : xh = rnI 
         rw [abs_eq_zero.1 this, zero_mul]
       · rw [h, mul_zero]
     rw [hxl, hQ0, rnI_zero]
-    simp
+    simp only [sub_self, zero_mul, add_zero, rqI_zero, neg_zero, abs_zero, mul_zero]
+    exact abs_nonneg _
   · have he := abs_sub_rqI_mul (xl * f + (Q - rnI Q) * (U : Int)) hU
     have hA : |xh * f| = |Q| * (U : Int) := by rw [hQ, abs_mul, abs_of_pos hUi]
     have h1 : 2 ^ 53 * |xl * f| ≤ |xh * f| := by
@@ -481,3 +482,1182 @@ theorem dwtimesfp_err {xh xl f Q : Int} {U : Nat} (hU : 0 < U) (hfix : xh = rnI 
         · omega
 
 end F64
+
+/-! ## 5. DWTimesFP3 on the model -/
+
+namespace F64
+
+theorem unit_cast_eq : ((unit : Nat) : Int) = 2 ^ 1074 := by
+  rw [unit_eq]; push_cast
+
+theorem two_pow_3169 : (2 : Int) ^ 3169 = 2 ^ 2095 * 2 ^ 1074 := by rw [← pow_add]
+theorem two_pow_1188 : (2 : Int) ^ 1188 = 2 ^ 114 * 2 ^ 1074 := by rw [← pow_add]
+
+/-- the magnitude facts of DWTimesFP3: the FMA result is bounded by the rounded product -/
+theorem dwtimesfp_mag {xh xl f Q : Int} (hfix : xh = rnI (xh + xl))
+    (hQ : xh * f = Q * (unit : Int)) (hc : RepI (Q - rnI Q)) :
+    roundQ (xl * f + (Q - rnI Q) * (unit : Int)).natAbs unit ≤ (rnI Q).natAbs := by
+  have hl := half_ulp_of_fix hfix
+  have hL := two_pow_mul_le_of_half_ulp hl
+  have hXY : xh.natAbs * f.natAbs = Q.natAbs * unit := by
+    have := congrArg Int.natAbs hQ
+    rwa [Int.natAbs_mul, Int.natAbs_mul, Int.natAbs_natCast] at this
+  by_cases hQ0 : Q = 0
+  · have h0 : xh * f = 0 := by rw [hQ, hQ0, zero_mul]
+    have hxl : xl * f = 0 := by
+      rcases mul_eq_zero.1 h0 with h | h
+      · rw [h, Int.natAbs_zero] at hL
+        have : xl.natAbs = 0 := by omega
+        rw [Int.natAbs_eq_zero.1 this, zero_mul]
+      · rw [h, mul_zero]
+    rw [hxl, hQ0, rnI_zero]
+    simp
+  · have hdiv : xh.natAbs * f.natAbs / unit = Q.natAbs := by
+      rw [hXY, Nat.mul_div_cancel _ unit_pos]
+    have hD : 2 * ((Q - rnI Q).natAbs * unit)
+        ≤ unit * 2 ^ (Nat.log2 (xh.natAbs * f.natAbs / unit) - 52) := by
+      rw [hdiv]
+      have h1 := two_mul_abs_rnI_sub_le Q
+      rw [abs_sub_comm, ← Int.natCast_natAbs] at h1
+      have h2 : 2 * (Q - rnI Q).natAbs ≤ 2 ^ (Nat.log2 Q.natAbs - 52) := by exact_mod_cast h1
+      calc 2 * ((Q - rnI Q).natAbs * unit) = (2 * (Q - rnI Q).natAbs) * unit := by ring
+        _ ≤ 2 ^ (Nat.log2 Q.natAbs - 52) * unit := Nat.mul_le_mul_right _ h2
+        _ = unit * 2 ^ (Nat.log2 Q.natAbs - 52) := Nat.mul_comm _ _
+    have hN : (xl * f + (Q - rnI Q) * (unit : Int)).natAbs
+        ≤ xl.natAbs * f.natAbs + roundQ ((Q - rnI Q).natAbs * unit) unit * unit := by
+      rw [roundQ_mul_of_rep unit_pos hc]
+      refine le_trans (Int.natAbs_add_le _ _) ?_
+      rw [Int.natAbs_mul, Int.natAbs_mul, Int.natAbs_natCast]
+    have key := dwtimesfp_nat unit_pos hL hD hN
+    have hch : roundQ (xh.natAbs * f.natAbs) unit = (rnI Q).natAbs := by
+      rw [hXY, roundQ_mul_right_eq_rn53 _ _ unit_pos, natAbs_rnI]
+    rw [hch] at key
+    rcases key with k0 | k1
+    · exact absurd (rnI_eq_zero_iff.1 (Int.natAbs_eq_zero.1 k0)) hQ0
+    · exact k1
+
+end F64
+
+namespace TwoFloat
+
+open F64
+
+/-- **C04, `TwoFloat * f64` (DWTimesFP3, relative error `≤ 2u² = 2^-105`).**  The product of the high word and
+the factor is `0`, or in `[2^-960, 2^1021)` (scaled by `2^-2148`: `[2^1188, 2^3169)`): no underflow in the
+error-free product, no overflow.  The exact product `x·f` is `x.V * f.toInt` in units of `2^-2148`, the result is
+`r.V * 2^1074` in the same units. -/
+theorem mul_tf_bound {x : TwoFloat} {f : F64} (hv : x.Valid) (hw : x.WF)
+    (hff : f.is_finite = true) (hwf : f.WF)
+    (hr : x.hi.toInt * f.toInt = 0 ∨
+      ((2 : Int) ^ 1188 ≤ |x.hi.toInt * f.toInt| ∧ |x.hi.toInt * f.toInt| < (2 : Int) ^ 3169)) :
+    (arithmetic.impl_Mul_rf64_for_rTwoFloat.mul x f).Valid ∧
+    |(arithmetic.impl_Mul_rf64_for_rTwoFloat.mul x f).V * (unit : Int) - x.V * f.toInt| * 2 ^ 105
+      ≤ |x.V * f.toInt| := by
+  rw [mul_tf_eq]
+  have hr' : x.hi.toInt * f.toInt = 0 ∨
+      ((2 : Int) ^ 1188 ≤ |x.hi.toInt * f.toInt| ∧ |x.hi.toInt * f.toInt| < (2 : Int) ^ 3171) := by
+    rcases hr with h | ⟨h1, h2⟩
+    · exact Or.inl h
+    · exact Or.inr ⟨h1, lt_trans h2 (pow_lt_pow_right₀ (by norm_num) (by norm_num))⟩
+  obtain ⟨Q, hQ, wh, wl⟩ := new_mul_words hv.1 hff hw.1 hwf hr'
+  have hfix := hv.rnI_eq
+  have hc : RepI (Q - rnI Q) := wl.repI (new_mul_WF _ _).2
+  have hUi : (0 : Int) < (unit : Int) := Int.natCast_pos.2 unit_pos
+  -- magnitude of `Q`
+  have hQlt : |Q| < 2 ^ 2095 := by
+    rcases hr with h | ⟨_, h2⟩
+    · rw [h] at hQ
+      rcases mul_eq_zero.1 hQ.symm with h | h
+      · rw [h, abs_zero]; positivity
+      · omega
+    · rw [hQ, abs_mul, abs_of_pos hUi, two_pow_3169, unit_cast_eq] at h2
+      exact lt_of_mul_lt_mul_right h2 (by positivity)
+  have hch_le : |rnI Q| ≤ 2 ^ 2095 := by
+    have := abs_rnI_le (v := Q) (repI_two_pow 2095) (by rw [abs_two_pow]; exact le_of_lt hQlt)
+    rwa [abs_two_pow] at this
+  have hmag := dwtimesfp_mag hfix hQ hc
+  have hch_nat : (rnI Q).natAbs ≤ 2 ^ 2095 := by
+    apply natAbs_le_of_abs_le
+    rw [Int.natCast_pow]; exact hch_le
+  have h2095 : 2 ^ 2095 ≤ maxFin :=
+    Nat.le_trans (Nat.pow_le_pow_right (by norm_num) (by norm_num)) two_pow_2097_le_maxFin
+  -- the FMA
+  have v3 := fma_spec hv.2.1 hff wl.1 (by rw [wl.2]; exact Nat.le_trans hmag (Nat.le_trans hch_nat h2095))
+  rw [wl.2] at v3
+  -- the closing Fast2Sum
+  have hab : |(F64.fma x.lo f (TwoFloat.new_mul x.hi f).lo).toInt| ≤ |(TwoFloat.new_mul x.hi f).hi.toInt| := by
+    rw [v3.2, wh.2, ← Int.natCast_natAbs, ← Int.natCast_natAbs (rnI Q), natAbs_rqI]
+    exact_mod_cast hmag
+  have hov : rn53 ((TwoFloat.new_mul x.hi f).hi.toInt +
+      (F64.fma x.lo f (TwoFloat.new_mul x.hi f).lo).toInt).natAbs ≤ maxFin := by
+    refine Nat.le_trans (rn53_le_pow (k := 2097) ?_) two_pow_2097_le_maxFin
+    apply natAbs_le_of_abs_le
+    rw [natCast_two_pow_2097]
+    have := abs_add_le (TwoFloat.new_mul x.hi f).hi.toInt (F64.fma x.lo f (TwoFloat.new_mul x.hi f).lo).toInt
+    rw [wh.2] at hab this ⊢
+    omega
+  have key := fast_two_sum_spec wh.1 v3.1 (new_mul_WF _ _).1 (fma_WF _ _ _) hab hov
+  refine ⟨key.2.2.1, ?_⟩
+  rw [key.2.1, wh.2, v3.2]
+  have hlow : x.hi.toInt * f.toInt = 0 ∨ 2 ^ 105 * (unit : Int) ≤ |x.hi.toInt * f.toInt| := by
+    rcases hr with h | ⟨h1, _⟩
+    · exact Or.inl h
+    · refine Or.inr (le_trans ?_ h1)
+      rw [two_pow_1188, unit_cast_eq]
+      exact mul_le_mul_of_nonneg_right (pow_le_pow_right₀ (by norm_num) (by norm_num)) (by positivity)
+  have h := dwtimesfp_err unit_pos hfix hQ hlow
+  have e : (rnI Q + rqI (x.lo.toInt * f.toInt + (Q - rnI Q) * (unit : Int)) unit) * (unit : Int)
+        - x.V * f.toInt
+      = -((x.lo.toInt * f.toInt + (Q - rnI Q) * (unit : Int))
+          + -(rqI (x.lo.toInt * f.toInt + (Q - rnI Q) * (unit : Int)) unit) * (unit : Int)) := by
+    unfold TwoFloat.V
+    have : (x.hi.toInt + x.lo.toInt) * f.toInt = Q * (unit : Int) + x.lo.toInt * f.toInt := by
+      rw [← hQ]; ring
+    rw [this]; ring
+  rw [e, abs_neg, mul_comm]
+  unfold TwoFloat.V
+  exact h
+
+/-- **C04, `f64 * TwoFloat`** (the same computation as `TwoFloat * f64`) -/
+theorem mul_ft_bound {x : TwoFloat} {f : F64} (hv : x.Valid) (hw : x.WF)
+    (hff : f.is_finite = true) (hwf : f.WF)
+    (hr : x.hi.toInt * f.toInt = 0 ∨
+      ((2 : Int) ^ 1188 ≤ |x.hi.toInt * f.toInt| ∧ |x.hi.toInt * f.toInt| < (2 : Int) ^ 3169)) :
+    (arithmetic.impl_Mul_rTwoFloat_for_rf64.mul f x).Valid ∧
+    |(arithmetic.impl_Mul_rTwoFloat_for_rf64.mul f x).V * (unit : Int) - f.toInt * x.V| * 2 ^ 105
+      ≤ |f.toInt * x.V| := by
+  have := mul_tf_bound hv hw hff hwf hr
+  rw [mul_comm f.toInt]
+  exact this
+
+end TwoFloat
+
+/-! ## 6. AccurateDWPlusDW on integers -/
+
+namespace F64
+
+theorem le_ulpexp_of_le_abs {z : Int} {e : Nat} (h : 2 ^ 52 * 2 ^ e ≤ |z|) : e ≤ Nat.log2 z.natAbs - 52 := by
+  apply le_log2_sub
+  rw [← Int.natCast_natAbs z] at h
+  exact_mod_cast h
+
+/-- AccurateDWPlusDW, the case of an inexact high sum (`sl ≠ 0`) -/
+theorem dwplusdw_err_inexact {xh xl yh yl : Int} (hxh : RepI xh) (hyh : RepI yh)
+    (hx : 2 * |xl| ≤ 2 ^ (Nat.log2 xh.natAbs - 52)) (hy : 2 * |yl| ≤ 2 ^ (Nat.log2 yh.natAbs - 52))
+    (hexy : Nat.log2 yh.natAbs - 52 ≤ Nat.log2 xh.natAbs - 52)
+    {sh sl th tl c vh vl w : Int}
+    (hsh : sh = rnI (xh + yh)) (hsl : sl = xh + yh - sh) (hth : th = rnI (xl + yl)) (htl : tl = xl + yl - th)
+    (hc : c = rnI (sl + th)) (hvh : vh = rnI (sh + c)) (hvl : vl = sh + c - vh) (hw : w = rnI (tl + vl))
+    (hne : sl ≠ 0) :
+    2 ^ 159 * |(c - (sl + th)) + (w - (tl + vl))| ≤ (3 * 2 ^ 53 + 13) * |xh + yh + (xl + yl)| := by
+  have dx := hxh.ulp_dvd
+  have dy := hyh.ulp_dvd
+  have by' := abs_lt_ulp_mul yh
+  have hxS : |xh| ≤ |xh + yh| + |yh| := by
+    have := abs_add_le (xh + yh) (-yh)
+    rwa [abs_neg, add_neg_cancel_right] at this
+  have hTb := abs_add_le xl yl
+  generalize hS : xh + yh = S at *
+  generalize hT : xl + yl = T at *
+  have hnr : ¬ RepI S := fun hr => hne (by rw [hsl, hsh, rnI_of_repI hr]; ring)
+  have heS : Nat.log2 S.natAbs - 52 ≠ 0 := by
+    intro h0
+    exact hnr (repI_of_dvd_ulp (k := 0) (by simp) (by omega))
+  have hbe : Nat.log2 yh.natAbs - 52 < Nat.log2 S.natAbs - 52 := by
+    by_contra hcon
+    apply hnr
+    apply repI_of_dvd_ulp (k := Nat.log2 S.natAbs - 52) _ (le_refl _)
+    have hd : (2 : Int) ^ (Nat.log2 S.natAbs - 52) ∣ xh + yh :=
+      dvd_add (dvd_trans (pow_dvd_pow 2 (by omega)) dx) (dvd_trans (pow_dvd_pow 2 (by omega)) dy)
+    rwa [hS] at hd
+  have lS := ulp_mul_le_abs heS
+  have bS := abs_lt_ulp_mul S
+  have h2b := two_mul_pow_le_of_lt hbe
+  have pB := two_pow_pos' (Nat.log2 yh.natAbs - 52)
+  have hae : Nat.log2 xh.natAbs - 52 ≤ Nat.log2 S.natAbs - 52 + 1 := by
+    apply ulpexp_le_of_abs_lt
+    rw [pow_succ]
+    omega
+  have h2a : (2 : Int) ^ (Nat.log2 xh.natAbs - 52) ≤ 2 ^ (Nat.log2 S.natAbs - 52 + 1) :=
+    pow_le_pow_right₀ (by norm_num) hae
+  -- the high sum
+  have hSh := ulp_mul_le_abs_rnI heS
+  have hShU : |rnI S| ≤ 2 ^ 53 * 2 ^ (Nat.log2 S.natAbs - 52) := by
+    have hr : RepI ((2 : Int) ^ 53 * 2 ^ (Nat.log2 S.natAbs - 52)) := by
+      rw [← pow_add]; exact repI_two_pow _
+    have hp : (0 : Int) < 2 ^ 53 * 2 ^ (Nat.log2 S.natAbs - 52) := by positivity
+    have := abs_rnI_le (v := S) hr (by rw [abs_of_pos hp]; omega)
+    rwa [abs_of_pos hp] at this
+  have hsl2 : 2 * |sl| ≤ 2 ^ (Nat.log2 S.natAbs - 52) := by
+    have := two_mul_abs_rnI_sub_le S
+    rw [abs_sub_comm] at this
+    push_cast at this
+    rw [hsl, hsh]; exact this
+  obtain ⟨e, he⟩ : ∃ e, Nat.log2 S.natAbs - 52 = e + 1 := ⟨Nat.log2 S.natAbs - 52 - 1, by omega⟩
+  rw [he] at lS bS h2b h2a hSh hShU hsl2
+  have e2 : (2 : Int) ^ (e + 1 + 1) = 2 ^ e * 2 * 2 := by rw [pow_succ, pow_succ]
+  have e1 : (2 : Int) ^ (e + 1) = 2 ^ e * 2 := pow_succ _ _
+  have pE := two_pow_pos' e
+  -- the low sum
+  have hTlt : |T| < 2 ^ (e + 1 + 1) := by rw [e2]; rw [e2] at h2a; rw [e1] at h2b; omega
+  have htl54 := err_le_of_abs_lt_pow hTlt
+  rw [abs_sub_comm, ← hth, ← htl] at htl54
+  have hthb : |th| ≤ |T| + |tl| := by
+    have := abs_add_le T (-tl)
+    rw [abs_neg] at this
+    have e : T + -tl = th := by rw [htl]; ring
+    rwa [e] at this
+  have hslth := abs_add_le sl th
+  have hclt : |sl + th| < 2 ^ (e + 1 + 1) := by
+    rw [e2] at h2a htl54 ⊢; rw [e1] at h2b hsl2; omega
+  have herr1 := err_le_of_abs_lt_pow hclt
+  rw [← hc] at herr1
+  have hcb : |c| ≤ 2 ^ (e + 1 + 1) := by
+    have := abs_rnI_le (v := sl + th) (repI_two_pow (e + 1 + 1)) (by rw [abs_two_pow]; exact le_of_lt hclt)
+    rwa [abs_two_pow, ← hc] at this
+  rw [← hsh] at hSh hShU
+  -- `V = sh + c`
+  have hVl : |sh| ≤ |sh + c| + |c| := by
+    have := abs_add_le (sh + c) (-c)
+    rwa [abs_neg, add_neg_cancel_right] at this
+  have hVu := abs_add_le sh c
+  -- the exact sum is `V - ε1 + tl`
+  have hZ : |sh + c| ≤ |S + T| + |c - (sl + th)| + |tl| := by
+    have h1 := abs_add_le (S + T + (c - (sl + th))) (-tl)
+    have h2 := abs_add_le (S + T) (c - (sl + th))
+    rw [abs_neg] at h1
+    have e : S + T + (c - (sl + th)) + -tl = sh + c := by rw [hsl, htl]; ring
+    rw [e] at h1
+    omega
+  have hfin := abs_add_le (c - (sl + th)) (w - (tl + vl))
+  generalize hV : sh + c = V at *
+  have hqU : Nat.log2 V.natAbs - 52 ≤ e + 1 + 1 := by
+    apply ulpexp_le_of_abs_lt
+    rw [e2]; rw [e2] at hcb; rw [e1] at hShU; omega
+  have hqL : e ≤ Nat.log2 V.natAbs - 52 := by
+    apply le_ulpexp_of_le_abs
+    rw [e2] at hcb; rw [e1] at hSh; omega
+  have hvl2 : 2 * |vl| ≤ 2 ^ (Nat.log2 V.natAbs - 52) := by
+    have := two_mul_abs_rnI_sub_le V
+    rw [abs_sub_comm] at this
+    push_cast at this
+    rw [hvl, hvh]; exact this
+  have lV := @ulp_mul_le_abs V
+  have htv := abs_add_le tl vl
+  rw [e2] at hcb herr1 htl54
+  rw [e1] at hSh hShU
+  have hcases : Nat.log2 V.natAbs - 52 = e ∨ Nat.log2 V.natAbs - 52 = e + 1 ∨
+      Nat.log2 V.natAbs - 52 = e + 1 + 1 := by omega
+  rcases hcases with hq | hq | hq
+  · rw [hq] at hvl2
+    have herr2 := err_le_of_abs_le_pow (w := tl + vl) (m := e) (by omega)
+    rw [← hw] at herr2
+    generalize (2 : Int) ^ e = E at *
+    omega
+  · rw [hq] at hvl2 lV
+    have lV' := lV (by omega)
+    have herr2 := err_le_of_abs_le_pow (w := tl + vl) (m := e + 1) (by rw [e1]; rw [e1] at hvl2; omega)
+    rw [← hw] at herr2
+    rw [e1] at herr2 lV'
+    generalize (2 : Int) ^ e = E at *
+    omega
+  · rw [hq] at hvl2 lV
+    have lV' := lV (by omega)
+    have herr2 := err_le_of_abs_le_pow (w := tl + vl) (m := e + 1 + 1) (by rw [e2]; rw [e2] at hvl2; omega)
+    rw [← hw] at herr2
+    rw [e2] at herr2 lV'
+    generalize (2 : Int) ^ e = E at *
+    omega
+
+/-- AccurateDWPlusDW, the case of an exact high sum (`sl = 0`): only the last addition rounds -/
+theorem dwplusdw_err_exact {xh xl yh yl : Int} (hxh : RepI xh) (hyh : RepI yh) (hxl : RepI xl) (hyl : RepI yl)
+    (hx : 2 * |xl| ≤ 2 ^ (Nat.log2 xh.natAbs - 52)) (hy : 2 * |yl| ≤ 2 ^ (Nat.log2 yh.natAbs - 52))
+    (hexy : Nat.log2 yh.natAbs - 52 ≤ Nat.log2 xh.natAbs - 52)
+    {sh sl th tl c vh vl w : Int}
+    (hsh : sh = rnI (xh + yh)) (hsl : sl = xh + yh - sh) (hth : th = rnI (xl + yl)) (htl : tl = xl + yl - th)
+    (hc : c = rnI (sl + th)) (hvh : vh = rnI (sh + c)) (hvl : vl = sh + c - vh) (hw : w = rnI (tl + vl))
+    (h0 : sl = 0) :
+    2 ^ 159 * |(c - (sl + th)) + (w - (tl + vl))| ≤ (3 * 2 ^ 53 + 13) * |xh + yh + (xl + yl)| := by
+  have dx := hxh.ulp_dvd
+  have dy := hyh.ulp_dvd
+  have by' := abs_lt_ulp_mul yh
+  have lx := @ulp_mul_le_abs xh
+  have hTb := abs_add_le xl yl
+  have hrtl : RepI tl := by rw [htl, hth]; exact repI_add_err hxl hyl
+  have hule : (2 : Int) ^ (Nat.log2 yh.natAbs - 52) ≤ 2 ^ (Nat.log2 xh.natAbs - 52) :=
+    pow_le_pow_right₀ (by norm_num) hexy
+  have pA := two_pow_pos' (Nat.log2 xh.natAbs - 52)
+  have pB := two_pow_pos' (Nat.log2 yh.natAbs - 52)
+  have hc' : c = th := by rw [hc, h0, zero_add, hth, rnI_of_repI (repI_rnI _)]
+  have hshS : sh = xh + yh := by omega
+  have e1 : c - (sl + th) = 0 := by rw [hc', h0]; ring
+  rw [e1, zero_add]
+  by_cases hvl0 : vl = 0
+  · rw [hw, hvl0, add_zero, rnI_of_repI hrtl, sub_self, abs_zero, mul_zero]
+    exact mul_nonneg (by norm_num) (abs_nonneg _)
+  · have hxV : |xh| ≤ |sh + c| + |yh| + |th| := by
+      have h1 := abs_add_le (sh + c + -yh) (-th)
+      have h2 := abs_add_le (sh + c) (-yh)
+      rw [abs_neg] at h1 h2
+      have e : sh + c + -yh + -th = xh := by rw [hshS, hc']; ring
+      rw [e] at h1
+      omega
+    have hdV : ∀ k : Nat, k ≤ Nat.log2 yh.natAbs - 52 → (2 : Int) ^ k ∣ th → (2 : Int) ^ k ∣ sh + c := by
+      intro k hk hd
+      rw [hshS, hc']
+      exact dvd_add (dvd_add (dvd_trans (pow_dvd_pow 2 (by omega)) dx) (dvd_trans (pow_dvd_pow 2 hk) dy)) hd
+    have hZ : |sh + c| ≤ |xh + yh + (xl + yl)| + |tl| := by
+      have := abs_add_le (xh + yh + (xl + yl)) (-tl)
+      rw [abs_neg] at this
+      have e : xh + yh + (xl + yl) + -tl = sh + c := by rw [hshS, hc', htl]; ring
+      rwa [e] at this
+    generalize hT : xl + yl = T at *
+    generalize hV : sh + c = V at *
+    have hnr : ¬ RepI V := fun hr => hvl0 (by rw [hvl, hvh, rnI_of_repI hr]; ring)
+    have heV : Nat.log2 V.natAbs - 52 ≠ 0 := by
+      intro h0
+      exact hnr (repI_of_dvd_ulp (k := 0) (by simp) (by omega))
+    have lV := ulp_mul_le_abs heV
+    have bV := abs_lt_ulp_mul V
+    have pQ := two_pow_pos' (Nat.log2 V.natAbs - 52)
+    have hvl2 : 2 * |vl| ≤ 2 ^ (Nat.log2 V.natAbs - 52) := by
+      have := two_mul_abs_rnI_sub_le V
+      rw [abs_sub_comm] at this
+      push_cast at this
+      rw [hvl, hvh]; exact this
+    have htl2 : 2 * |tl| ≤ 2 ^ (Nat.log2 T.natAbs - 52) := by
+      have := two_mul_abs_rnI_sub_le T
+      rw [abs_sub_comm] at this
+      push_cast at this
+      rw [htl, hth]; exact this
+    have hkey : 2 * |tl| ≤ 2 ^ (Nat.log2 V.natAbs - 52) := by
+      by_contra hcon
+      have hlt : Nat.log2 V.natAbs - 52 < Nat.log2 T.natAbs - 52 := by
+        by_contra hc2
+        have : (2 : Int) ^ (Nat.log2 T.natAbs - 52) ≤ 2 ^ (Nat.log2 V.natAbs - 52) :=
+          pow_le_pow_right₀ (by norm_num) (by omega)
+        omega
+      have h2q := two_mul_pow_le_of_lt hlt
+      have lT := ulp_mul_le_abs (z := T) (by omega)
+      have dth : (2 : Int) ^ (Nat.log2 V.natAbs - 52) ∣ th := by
+        have h1 := (repI_rnI T).ulp_dvd
+        have h2 := ulpexp_le_ulpexp_rnI T
+        rw [hth]
+        exact dvd_trans (pow_dvd_pow 2 (by omega)) h1
+      have hbq : Nat.log2 yh.natAbs - 52 < Nat.log2 V.natAbs - 52 := by
+        by_contra hc2
+        exact hnr (repI_of_dvd_ulp (k := Nat.log2 V.natAbs - 52) (hdV _ (by omega) dth) (le_refl _))
+      have h2b := two_mul_pow_le_of_lt hbq
+      have ha0 : Nat.log2 xh.natAbs - 52 ≠ 0 := by
+        intro ha
+        rw [ha, pow_zero] at hx hule
+        omega
+      have lx' := lx ha0
+      have hthb : |th| ≤ 2 ^ (Nat.log2 xh.natAbs - 52) := by
+        have := abs_rnI_le (v := T) (repI_two_pow (Nat.log2 xh.natAbs - 52)) (by rw [abs_two_pow]; omega)
+        rwa [abs_two_pow, ← hth] at this
+      generalize (2 : Int) ^ (Nat.log2 xh.natAbs - 52) = A at *
+      generalize (2 : Int) ^ (Nat.log2 yh.natAbs - 52) = B at *
+      generalize (2 : Int) ^ (Nat.log2 V.natAbs - 52) = Q at *
+      generalize (2 : Int) ^ (Nat.log2 T.natAbs - 52) = K at *
+      omega
+    have htv := abs_add_le tl vl
+    have herr2 := err_le_of_abs_le_pow (w := tl + vl) (m := Nat.log2 V.natAbs - 52) (by omega)
+    rw [← hw] at herr2
+    generalize (2 : Int) ^ (Nat.log2 V.natAbs - 52) = Q at *
+    omega
+
+/-- **AccurateDWPlusDW (Joldes–Muller–Popescu 2017, Algorithm 6, Theorem 3.1), scaled integers.**
+`(xh, xl)`, `(yh, yl)` pairs of doubles with low words at most half an ulp of the high words;
+`(sh, sl) = 2Sum(xh, yh)`, `(th, tl) = 2Sum(xl, yl)`, `c = RN(sl + th)`, `(vh, vl) = Fast2Sum(sh, c)`,
+`w = RN(tl + vl)`.  The two rounding errors (of `c` and of `w`) — which make up the total error of the algorithm —
+are together at most `3u² + 13u³` times the exact sum (`u = 2^-53`): `2^159·|err| ≤ (3·2^53 + 13)·|x + y|`. -/
+theorem dwplusdw_err {xh xl yh yl : Int} (hxh : RepI xh) (hyh : RepI yh) (hxl : RepI xl) (hyl : RepI yl)
+    (hx : 2 * |xl| ≤ 2 ^ (Nat.log2 xh.natAbs - 52)) (hy : 2 * |yl| ≤ 2 ^ (Nat.log2 yh.natAbs - 52))
+    {sh sl th tl c vh vl w : Int}
+    (hsh : sh = rnI (xh + yh)) (hsl : sl = xh + yh - sh) (hth : th = rnI (xl + yl)) (htl : tl = xl + yl - th)
+    (hc : c = rnI (sl + th)) (hvh : vh = rnI (sh + c)) (hvl : vl = sh + c - vh) (hw : w = rnI (tl + vl)) :
+    2 ^ 159 * |(c - (sl + th)) + (w - (tl + vl))| ≤ (3 * 2 ^ 53 + 13) * |xh + yh + (xl + yl)| := by
+  rcases Nat.le_total (Nat.log2 yh.natAbs - 52) (Nat.log2 xh.natAbs - 52) with hexy | hexy
+  · by_cases h0 : sl = 0
+    · exact dwplusdw_err_exact hxh hyh hxl hyl hx hy hexy hsh hsl hth htl hc hvh hvl hw h0
+    · exact dwplusdw_err_inexact hxh hyh hx hy hexy hsh hsl hth htl hc hvh hvl hw h0
+  · rw [add_comm xh yh] at hsh hsl
+    rw [add_comm xl yl] at hth htl
+    rw [add_comm xh yh, add_comm xl yl]
+    by_cases h0 : sl = 0
+    · exact dwplusdw_err_exact hyh hxh hyl hxl hy hx hexy hsh hsl hth htl hc hvh hvl hw h0
+    · exact dwplusdw_err_inexact hyh hxh hy hx hexy hsh hsl hth htl hc hvh hvl hw h0
+
+end F64
+
+/-! ## 7. AccurateDWPlusDW on the model -/
+
+namespace F64
+
+open TwoFloat
+
+theorem abs_lo_le_of_half_ulp {h l : Int} (hl : 2 * |l| ≤ 2 ^ (Nat.log2 h.natAbs - 52)) : 2 ^ 53 * |l| ≤ |h| := by
+  have := two_pow_mul_le_of_half_ulp hl
+  rw [← Int.natCast_natAbs l, ← Int.natCast_natAbs h]
+  exact_mod_cast this
+
+theorem abs_rnI_le_pow {v : Int} {k : Nat} (h : |v| ≤ 2 ^ k) : |rnI v| ≤ 2 ^ k := by
+  have := abs_rnI_le (v := v) (repI_two_pow k) (by rwa [abs_two_pow])
+  rwa [abs_two_pow] at this
+
+theorem rn53_natAbs_le_of_abs_le_2097 {z : Int} (h : |z| ≤ 2 ^ 2097) : rn53 z.natAbs ≤ maxFin := by
+  refine Nat.le_trans (rn53_le_pow (k := 2097) ?_) two_pow_2097_le_maxFin
+  apply natAbs_le_of_abs_le
+  rw [Int.natCast_pow]
+  exact h
+
+theorem two_pow_2097_le_maxFin_int : (2 : Int) ^ 2097 ≤ (maxFin : Int) := by
+  have := two_pow_2097_le_maxFin
+  exact_mod_cast this
+
+/-- the tail of `TwoFloat ± TwoFloat` from the values of the two 2Sums: a valid result within
+`3u² + 13u³` (relative) of the exact sum -/
+theorem dwplusdw_tail {s t : TwoFloat} {xh xl yh yl : Int}
+    (hs : s.IsV (rnI (xh + yh)) (xh + yh - rnI (xh + yh)))
+    (ht : t.IsV (rnI (xl + yl)) (xl + yl - rnI (xl + yl))) (hws : s.WF)
+    (hxh : RepI xh) (hyh : RepI yh) (hxl : RepI xl) (hyl : RepI yl)
+    (hx : 2 * |xl| ≤ 2 ^ (Nat.log2 xh.natAbs - 52)) (hy : 2 * |yl| ≤ 2 ^ (Nat.log2 yh.natAbs - 52))
+    (bx : |xh| < 2 ^ 2094) (by' : |yh| < 2 ^ 2094) :
+    (addCore s t).Valid ∧
+    |(addCore s t).V - (xh + yh + (xl + yl))| * 2 ^ 159 ≤ (3 * 2 ^ 53 + 13) * |xh + yh + (xl + yl)| := by
+  unfold addCore
+  obtain ⟨P1, P2⟩ := dwplusdw_pre hxh hyh hx hy
+  -- magnitudes
+  have mxl := abs_lo_le_of_half_ulp hx
+  have myl := abs_lo_le_of_half_ulp hy
+  have mS := abs_add_le xh yh
+  have mT := abs_add_le xl yl
+  have msh : |rnI (xh + yh)| ≤ 2 ^ 2095 := abs_rnI_le_pow (by omega)
+  have msl := rel_err_rnI (xh + yh)
+  rw [abs_sub_comm] at msl
+  have mth : |rnI (xl + yl)| ≤ 2 ^ 2042 := abs_rnI_le_pow (by omega)
+  have mtl : |xl + yl - rnI (xl + yl)| ≤ |yl| := abs_add_err_le_right hxl
+  have mc0 := abs_add_le (xh + yh - rnI (xh + yh)) (rnI (xl + yl))
+  have mc : |rnI (xh + yh - rnI (xh + yh) + rnI (xl + yl))| ≤ 2 ^ 2043 := abs_rnI_le_pow (by omega)
+  have mV0 := abs_add_le (rnI (xh + yh)) (rnI (xh + yh - rnI (xh + yh) + rnI (xl + yl)))
+  -- `c`
+  have vc := hs.2.add ht.1 (le_trans (by omega) two_pow_2097_le_maxFin_int)
+  generalize hcdef : rnI (xh + yh - rnI (xh + yh) + rnI (xl + yl)) = c at *
+  -- `v`
+  have hov1 : rn53 (s.hi.toInt + (F64.add s.lo t.hi).toInt).natAbs ≤ maxFin := by
+    rw [hs.1.2, vc.2]
+    exact rn53_natAbs_le_of_abs_le_2097 (by omega)
+  have Vw : IsVal (arithmetic.fast_two_sum s.hi (F64.add s.lo t.hi)).hi (rnI (rnI (xh + yh) + c)) ∧
+      IsVal (arithmetic.fast_two_sum s.hi (F64.add s.lo t.hi)).lo
+        (rnI (xh + yh) + c - rnI (rnI (xh + yh) + c)) := by
+    have := (by
+      rcases P1 with p | p
+      · exact fast_two_sum_words hs.1.1 vc.1 hws.1 (add_WF _ _) (by rw [hs.1.2, vc.2]; exact p) hov1
+      · exact fast_two_sum_words_of_dvd hs.1.1 vc.1 hws.1 (add_WF _ _) (by rw [hs.1.2, vc.2]; exact p) hov1 :
+      IsVal (arithmetic.fast_two_sum s.hi (F64.add s.lo t.hi)).hi
+          (rnI (s.hi.toInt + (F64.add s.lo t.hi).toInt)) ∧
+        IsVal (arithmetic.fast_two_sum s.hi (F64.add s.lo t.hi)).lo
+          (s.hi.toInt + (F64.add s.lo t.hi).toInt - rnI (s.hi.toInt + (F64.add s.lo t.hi).toInt)))
+    rwa [hs.1.2, vc.2] at this
+  have mvh : |rnI (rnI (xh + yh) + c)| ≤ 2 ^ 2096 := abs_rnI_le_pow (by omega)
+  have mvl : |rnI (xh + yh) + c - rnI (rnI (xh + yh) + c)| ≤ |c| := abs_add_err_le_right (repI_rnI _)
+  have mw0 := abs_add_le (xl + yl - rnI (xl + yl)) (rnI (xh + yh) + c - rnI (rnI (xh + yh) + c))
+  have mw : |rnI (xl + yl - rnI (xl + yl) + (rnI (xh + yh) + c - rnI (rnI (xh + yh) + c)))| ≤ 2 ^ 2044 :=
+    abs_rnI_le_pow (by omega)
+  -- `w`
+  have vw := ht.2.add Vw.2 (le_trans (by omega) two_pow_2097_le_maxFin_int)
+  have mR0 := abs_add_le (rnI (rnI (xh + yh) + c))
+    (rnI (xl + yl - rnI (xl + yl) + (rnI (xh + yh) + c - rnI (rnI (xh + yh) + c))))
+  have hov2 : rn53 ((arithmetic.fast_two_sum s.hi (F64.add s.lo t.hi)).hi.toInt +
+      (F64.add t.lo (arithmetic.fast_two_sum s.hi (F64.add s.lo t.hi)).lo).toInt).natAbs ≤ maxFin := by
+    rw [Vw.1.2, vw.2]
+    exact rn53_natAbs_le_of_abs_le_2097 (by omega)
+  have key : _ ∧ _ ∧ _ ∧ _ := (by
+    rcases P2 with p | p
+    · exact fast_two_sum_spec_of_dvd Vw.1.1 vw.1 (fast_two_sum_WF _ _).1 (add_WF _ _)
+        (by rw [Vw.1.2, p]; exact dvd_zero _) hov2
+    · exact fast_two_sum_spec Vw.1.1 vw.1 (fast_two_sum_WF _ _).1 (add_WF _ _)
+        (by rw [vw.2, Vw.1.2]; exact abs_rnI_le (repI_rnI _) p) hov2 :
+    (arithmetic.fast_two_sum (arithmetic.fast_two_sum s.hi (F64.add s.lo t.hi)).hi
+        (F64.add t.lo (arithmetic.fast_two_sum s.hi (F64.add s.lo t.hi)).lo)).hi.toInt = _ ∧
+    (arithmetic.fast_two_sum (arithmetic.fast_two_sum s.hi (F64.add s.lo t.hi)).hi
+        (F64.add t.lo (arithmetic.fast_two_sum s.hi (F64.add s.lo t.hi)).lo)).V = _ ∧
+    (arithmetic.fast_two_sum (arithmetic.fast_two_sum s.hi (F64.add s.lo t.hi)).hi
+        (F64.add t.lo (arithmetic.fast_two_sum s.hi (F64.add s.lo t.hi)).lo)).Valid ∧
+    (arithmetic.fast_two_sum (arithmetic.fast_two_sum s.hi (F64.add s.lo t.hi)).hi
+        (F64.add t.lo (arithmetic.fast_two_sum s.hi (F64.add s.lo t.hi)).lo)).WF)
+  refine ⟨key.2.2.1, ?_⟩
+  rw [key.2.1, Vw.1.2, vw.2]
+  have h := dwplusdw_err hxh hyh hxl hyl hx hy (sh := rnI (xh + yh)) rfl rfl rfl rfl hcdef.symm rfl rfl rfl
+  have e : rnI (rnI (xh + yh) + c)
+        + rnI (xl + yl - rnI (xl + yl) + (rnI (xh + yh) + c - rnI (rnI (xh + yh) + c)))
+        - (xh + yh + (xl + yl))
+      = (c - (xh + yh - rnI (xh + yh) + rnI (xl + yl)))
+        + (rnI (xl + yl - rnI (xl + yl) + (rnI (xh + yh) + c - rnI (rnI (xh + yh) + c)))
+          - (xl + yl - rnI (xl + yl) + (rnI (xh + yh) + c - rnI (rnI (xh + yh) + c)))) := by ring
+  rw [e, mul_comm]
+  exact h
+
+end F64
+
+namespace TwoFloat
+
+open F64
+
+theorem lt_2097_of_lt_2094 {n : Nat} (h : n < 2 ^ 2094) : n < 2 ^ 2097 :=
+  Nat.lt_trans h (Nat.pow_lt_pow_right (by norm_num) (by norm_num))
+
+theorem Valid.two_mul_abs_lo_le_maxFin {x : TwoFloat} (hv : x.Valid) (hw : x.WF)
+    (bx : x.hi.toInt.natAbs < 2 ^ 2097) : 2 * |x.lo.toInt| ≤ (maxFin : Int) := by
+  have h1 := hw.1.two_mul_abs_le bx
+  have h2 := hv.abs_lo_le
+  omega
+
+/-- **C03, `TwoFloat + TwoFloat` (AccurateDWPlusDW, relative error `≤ 3u² + 13u³`, `u = 2^-53`).**
+High words below `2^1020` in magnitude (scaled: `2^2094`); no lower limit. -/
+theorem add_tt_bound {x y : TwoFloat} (hvx : x.Valid) (hwx : x.WF) (hvy : y.Valid) (hwy : y.WF)
+    (bx : x.hi.toInt.natAbs < 2 ^ 2094) (by' : y.hi.toInt.natAbs < 2 ^ 2094) :
+    (arithmetic.impl_Add_rTwoFloat_for_rTwoFloat.add x y).Valid ∧
+    |(arithmetic.impl_Add_rTwoFloat_for_rTwoFloat.add x y).V - (x.V + y.V)| * 2 ^ 159
+      ≤ (3 * 2 ^ 53 + 13) * |x.V + y.V| := by
+  rw [add_tt_eq]
+  have hs := new_add_words hvx.1 hvy.1 hwx.1 hwy.1 (hwx.1.two_mul_abs_le (lt_2097_of_lt_2094 bx))
+    (hwy.1.two_mul_abs_le (lt_2097_of_lt_2094 by'))
+  have ht := new_add_words hvx.2.1 hvy.2.1 hwx.2 hwy.2
+    (hvx.two_mul_abs_lo_le_maxFin hwx (lt_2097_of_lt_2094 bx))
+    (hvy.two_mul_abs_lo_le_maxFin hwy (lt_2097_of_lt_2094 by'))
+  have := dwplusdw_tail (s := TwoFloat.new_add x.hi y.hi) (t := TwoFloat.new_add x.lo y.lo) hs ht
+    (new_add_WF _ _) hwx.1.repI hwy.1.repI hwx.2.repI hwy.2.repI
+    hvx.two_mul_abs_lo_le hvy.two_mul_abs_lo_le (natAbs_lt_to_abs bx) (natAbs_lt_to_abs by')
+  have e : x.V + y.V = x.hi.toInt + y.hi.toInt + (x.lo.toInt + y.lo.toInt) := by unfold TwoFloat.V; ring
+  rw [e]
+  exact this
+
+/-- **C03, `TwoFloat - TwoFloat`** -/
+theorem sub_tt_bound {x y : TwoFloat} (hvx : x.Valid) (hwx : x.WF) (hvy : y.Valid) (hwy : y.WF)
+    (bx : x.hi.toInt.natAbs < 2 ^ 2094) (by' : y.hi.toInt.natAbs < 2 ^ 2094) :
+    (arithmetic.impl_Sub_rTwoFloat_for_rTwoFloat.sub x y).Valid ∧
+    |(arithmetic.impl_Sub_rTwoFloat_for_rTwoFloat.sub x y).V - (x.V - y.V)| * 2 ^ 159
+      ≤ (3 * 2 ^ 53 + 13) * |x.V - y.V| := by
+  rw [sub_tt_eq]
+  have hs := new_sub_words hvx.1 hvy.1 hwx.1 hwy.1 (hwx.1.two_mul_abs_le (lt_2097_of_lt_2094 bx))
+    (hwy.1.two_mul_abs_le (lt_2097_of_lt_2094 by'))
+  have ht := new_sub_words hvx.2.1 hvy.2.1 hwx.2 hwy.2
+    (hvx.two_mul_abs_lo_le_maxFin hwx (lt_2097_of_lt_2094 bx))
+    (hvy.two_mul_abs_lo_le_maxFin hwy (lt_2097_of_lt_2094 by'))
+  rw [Int.sub_eq_add_neg] at hs ht
+  have hy : 2 * |-y.lo.toInt| ≤ 2 ^ (Nat.log2 (-y.hi.toInt).natAbs - 52) := by
+    rw [abs_neg, Int.natAbs_neg]; exact hvy.two_mul_abs_lo_le
+  have := dwplusdw_tail (s := TwoFloat.new_sub x.hi y.hi) (t := TwoFloat.new_sub x.lo y.lo) hs ht
+    (new_sub_WF _ _) hwx.1.repI hwy.1.repI.neg hwx.2.repI hwy.2.repI.neg
+    hvx.two_mul_abs_lo_le hy (natAbs_lt_to_abs bx) (by rw [abs_neg]; exact natAbs_lt_to_abs by')
+  have e : x.V - y.V = x.hi.toInt + -y.hi.toInt + (x.lo.toInt + -y.lo.toInt) := by unfold TwoFloat.V; ring
+  rw [e]
+  exact this
+
+end TwoFloat
+
+/-! ## 8. DWTimesDW3 (`TwoFloat * TwoFloat`) on integers: the first-order bound `7u²` -/
+
+namespace F64
+
+/-- relative-plus-underflow error bound of a rounded quotient: `|p - RN(p/U)·U| ≤ 2^-53 |p| + U/2` -/
+theorem rqI_err_le (p : Int) {U : Nat} (hU : 0 < U) :
+    2 ^ 53 * |p + -(rqI p U) * (U : Int)| ≤ |p| + 2 ^ 52 * (U : Int) := by
+  have he := abs_sub_rqI_mul p hU
+  have hUi : (0 : Int) < (U : Int) := Int.natCast_pos.2 hU
+  have hp := abs_nonneg p
+  by_cases hk : Nat.log2 (p.natAbs / U) - 52 = 0
+  · rw [hk, pow_zero, mul_one] at he
+    omega
+  · have h3 : 2 ^ 52 * ((U : Int) * 2 ^ (Nat.log2 (p.natAbs / U) - 52)) ≤ |p| := by
+      have := quot_ulp_le hU hk
+      rw [← Int.natCast_natAbs p]
+      exact_mod_cast this
+    generalize (U : Int) * 2 ^ (Nat.log2 (p.natAbs / U) - 52) = K at *
+    omega
+
+/-- **DWTimesDW3 in the crate's form (Joldes–Muller–Popescu 2017, Algorithm 12), scaled integers, first-order
+analysis.**  `a = xh·yh = Q·U`, `b1 = xh·yl`, `b2 = xl·yh`, `z = xl·yl` (cross terms at most `2^-53 |a|`, `2^-106 |a|`),
+`tl0 = RN(z/U)`, `tl1 = RN((b1 + tl0·U)/U)`, `cl2 = RN((b2 + tl1·U)/U)`, `cl3 = RN(cl1 + cl2)` with
+`cl1 = Q - RN(Q)`: the result `RN(Q) + cl3` is within `7u²` of the exact product `a + b1 + b2 + z`
+(the paper's constant is `5u²`; the four rounding errors are bounded here by their relative size only). -/
+theorem dwtimesdw_err_7u2 {a b1 b2 z Q : Int} {U : Nat} (hU : 0 < U) (ha : a = Q * (U : Int))
+    (h1 : 2 ^ 53 * |b1| ≤ |a|) (h2 : 2 ^ 53 * |b2| ≤ |a|) (hz : 2 ^ 106 * |z| ≤ |a|)
+    (hlow : 2 ^ 114 * (U : Int) ≤ |a|)
+    {tl0 tl1 cl2 cl3 : Int} (ht0 : tl0 = rqI z U) (ht1 : tl1 = rqI (b1 + tl0 * (U : Int)) U)
+    (hc2 : cl2 = rqI (b2 + tl1 * (U : Int)) U) (hc3 : cl3 = rnI (Q - rnI Q + cl2)) :
+    2 ^ 106 * |(rnI Q + cl3) * (U : Int) - (a + b1 + b2 + z)| ≤ 7 * |a + b1 + b2 + z| := by
+  have hUi : (0 : Int) < (U : Int) := Int.natCast_pos.2 hU
+  have d1 := rqI_err_le z hU
+  have d2 := rqI_err_le (b1 + tl0 * (U : Int)) hU
+  have d3 := rqI_err_le (b2 + tl1 * (U : Int)) hU
+  rw [← ht0] at d1
+  rw [← ht1] at d2
+  rw [← hc2] at d3
+  have d4 := rel_err_rnI (Q - rnI Q + cl2)
+  rw [← hc3] at d4
+  have hq := rel_err_rnI Q
+  rw [abs_sub_comm] at hq
+  -- multiply the integer-level facts by `U`
+  have hA : |a| = |Q| * (U : Int) := by rw [ha, abs_mul, abs_of_pos hUi]
+  have hc1U : 2 ^ 53 * (|Q - rnI Q| * (U : Int)) ≤ |a| := by
+    rw [hA, ← mul_assoc]
+    exact mul_le_mul_of_nonneg_right hq (le_of_lt hUi)
+  have hc2U : |cl2| * (U : Int) = |cl2 * (U : Int)| := by rw [abs_mul, abs_of_pos hUi]
+  have hd4U : 2 ^ 53 * (|cl3 - (Q - rnI Q + cl2)| * (U : Int))
+      ≤ |Q - rnI Q| * (U : Int) + |cl2 * (U : Int)| := by
+    have h := le_trans d4 (abs_add_le (Q - rnI Q) cl2)
+    have := mul_le_mul_of_nonneg_right h (le_of_lt hUi)
+    rw [← hc2U]
+    linarith
+  -- the error is the sum of the four rounding errors
+  have herr : (rnI Q + cl3) * (U : Int) - (a + b1 + b2 + z)
+      = -((z + -tl0 * (U : Int)) + (b1 + tl0 * (U : Int) + -tl1 * (U : Int))
+          + (b2 + tl1 * (U : Int) + -cl2 * (U : Int))) + (cl3 - (Q - rnI Q + cl2)) * (U : Int) := by
+    rw [ha]; ring
+  have t1 := abs_add_le (-((z + -tl0 * (U : Int)) + (b1 + tl0 * (U : Int) + -tl1 * (U : Int))
+          + (b2 + tl1 * (U : Int) + -cl2 * (U : Int)))) ((cl3 - (Q - rnI Q + cl2)) * (U : Int))
+  rw [abs_neg, abs_mul (cl3 - (Q - rnI Q + cl2)), abs_of_pos hUi] at t1
+  have t2 := abs_add_le ((z + -tl0 * (U : Int)) + (b1 + tl0 * (U : Int) + -tl1 * (U : Int)))
+    (b2 + tl1 * (U : Int) + -cl2 * (U : Int))
+  have t3 := abs_add_le (z + -tl0 * (U : Int)) (b1 + tl0 * (U : Int) + -tl1 * (U : Int))
+  -- magnitudes of the intermediate values
+  have m0 : |tl0 * (U : Int)| ≤ |z| + |z + -tl0 * (U : Int)| := by
+    have := abs_add_le z (-(z + -tl0 * (U : Int)))
+    rw [abs_neg] at this
+    have e : z + -(z + -tl0 * (U : Int)) = tl0 * (U : Int) := by ring
+    rwa [e] at this
+  have n1 := abs_add_le b1 (tl0 * (U : Int))
+  have m1 : |tl1 * (U : Int)| ≤ |b1 + tl0 * (U : Int)| + |b1 + tl0 * (U : Int) + -tl1 * (U : Int)| := by
+    have := abs_add_le (b1 + tl0 * (U : Int)) (-(b1 + tl0 * (U : Int) + -tl1 * (U : Int)))
+    rw [abs_neg] at this
+    have e : b1 + tl0 * (U : Int) + -(b1 + tl0 * (U : Int) + -tl1 * (U : Int)) = tl1 * (U : Int) := by ring
+    rwa [e] at this
+  have n2 := abs_add_le b2 (tl1 * (U : Int))
+  have m2 : |cl2 * (U : Int)| ≤ |b2 + tl1 * (U : Int)| + |b2 + tl1 * (U : Int) + -cl2 * (U : Int)| := by
+    have := abs_add_le (b2 + tl1 * (U : Int)) (-(b2 + tl1 * (U : Int) + -cl2 * (U : Int)))
+    rw [abs_neg] at this
+    have e : b2 + tl1 * (U : Int) + -(b2 + tl1 * (U : Int) + -cl2 * (U : Int)) = cl2 * (U : Int) := by ring
+    rwa [e] at this
+  -- the exact product from below
+  have hP : |a| ≤ |a + b1 + b2 + z| + |b1| + |b2| + |z| := by
+    have p1 := abs_add_le (a + b1 + b2 + z) (-z)
+    have p2 := abs_add_le (a + b1 + b2) (-b2)
+    have p3 := abs_add_le (a + b1) (-b1)
+    rw [abs_neg] at p1 p2 p3
+    have e1 : a + b1 + b2 + z + -z = a + b1 + b2 := by ring
+    have e2 : a + b1 + b2 + -b2 = a + b1 := by ring
+    have e3 : a + b1 + -b1 = a := by ring
+    rw [e1] at p1; rw [e2] at p2; rw [e3] at p3
+    omega
+  rw [herr]
+  generalize |z + -tl0 * (U : Int)| = D1 at *
+  generalize |b1 + tl0 * (U : Int) + -tl1 * (U : Int)| = D2 at *
+  generalize |b2 + tl1 * (U : Int) + -cl2 * (U : Int)| = D3 at *
+  generalize |cl3 - (Q - rnI Q + cl2)| * (U : Int) = D4 at *
+  generalize |Q - rnI Q| * (U : Int) = C1 at *
+  omega
+
+end F64
+
+/-! ## 9. DWTimesDW3 on the model (bound `7u²`, partial) -/
+
+namespace F64
+
+/-- the zero case included -/
+theorem dwtimesdw_err_7u2' {a b1 b2 z Q : Int} {U : Nat} (hU : 0 < U) (ha : a = Q * (U : Int))
+    (h1 : 2 ^ 53 * |b1| ≤ |a|) (h2 : 2 ^ 53 * |b2| ≤ |a|) (hz : 2 ^ 106 * |z| ≤ |a|)
+    (hlow : a = 0 ∨ 2 ^ 114 * (U : Int) ≤ |a|)
+    {tl0 tl1 cl2 cl3 : Int} (ht0 : tl0 = rqI z U) (ht1 : tl1 = rqI (b1 + tl0 * (U : Int)) U)
+    (hc2 : cl2 = rqI (b2 + tl1 * (U : Int)) U) (hc3 : cl3 = rnI (Q - rnI Q + cl2)) :
+    2 ^ 106 * |(rnI Q + cl3) * (U : Int) - (a + b1 + b2 + z)| ≤ 7 * |a + b1 + b2 + z| := by
+  rcases hlow with h0 | hlow
+  · have hUi : (0 : Int) < (U : Int) := Int.natCast_pos.2 hU
+    rw [h0, abs_zero] at h1 h2 hz
+    have e1 : b1 = 0 := abs_eq_zero.1 (by have := abs_nonneg b1; omega)
+    have e2 : b2 = 0 := abs_eq_zero.1 (by have := abs_nonneg b2; omega)
+    have e3 : z = 0 := abs_eq_zero.1 (by have := abs_nonneg z; omega)
+    have eQ : Q = 0 := by
+      rw [h0] at ha
+      rcases mul_eq_zero.1 ha.symm with h | h
+      · exact h
+      · omega
+    subst e1 e2 e3 eQ
+    rw [rqI_zero] at ht0
+    subst ht0
+    rw [zero_mul, add_zero, rqI_zero] at ht1
+    subst ht1
+    rw [zero_mul, add_zero, rqI_zero] at hc2
+    subst hc2
+    rw [rnI_zero, sub_zero, add_zero, rnI_zero] at hc3
+    subst hc3
+    rw [h0]; simp
+  · exact dwtimesdw_err_7u2 hU ha h1 h2 hz hlow ht0 ht1 hc2 hc3
+
+theorem abs_rqI_mul_le (p : Int) {U : Nat} (hU : 0 < U) : |rqI p U * (U : Int)| ≤ 2 * |p| := by
+  have h := roundQ_mul_le_two_mul p.natAbs U hU
+  rw [abs_mul, abs_of_nonneg (Int.natCast_nonneg U), ← Int.natCast_natAbs (rqI p U), natAbs_rqI,
+    ← Int.natCast_natAbs p]
+  exact_mod_cast h
+
+/-- a rounded quotient below `2^1023` is finite -/
+theorem roundQ_natAbs_le_maxFin {N : Int} (h : |N| ≤ 2 ^ 2097 * (unit : Int)) :
+    roundQ N.natAbs unit ≤ maxFin := by
+  refine Nat.le_trans (roundQ_le_of_le unit_pos (rep_two_pow 2097) ?_) two_pow_2097_le_maxFin
+  rw [← Int.natCast_natAbs N] at h
+  exact_mod_cast h
+
+end F64
+
+namespace TwoFloat
+
+open F64
+
+/-- the value of `TwoFloat * TwoFloat` (DWTimesDW3 in the crate's form) when `x.hi·y.hi` is `0` or in
+`[2^-960, 2^1021)`: every intermediate operation is finite, the closing Fast2Sum is exact, the result is valid -/
+theorem mul_tt_values {x y : TwoFloat} (hvx : x.Valid) (hwx : x.WF) (hvy : y.Valid) (hwy : y.WF)
+    (hr : x.hi.toInt * y.hi.toInt = 0 ∨
+      ((2 : Int) ^ 1188 ≤ |x.hi.toInt * y.hi.toInt| ∧ |x.hi.toInt * y.hi.toInt| < (2 : Int) ^ 3169)) :
+    ∃ Q : Int, x.hi.toInt * y.hi.toInt = Q * (unit : Int) ∧
+      (arithmetic.impl_Mul_rTwoFloat_for_rTwoFloat.mul x y).Valid ∧
+      (arithmetic.impl_Mul_rTwoFloat_for_rTwoFloat.mul x y).V
+        = rnI Q + rnI (Q - rnI Q + rqI (x.lo.toInt * y.hi.toInt
+            + rqI (x.hi.toInt * y.lo.toInt + rqI (x.lo.toInt * y.lo.toInt) unit * (unit : Int)) unit
+              * (unit : Int)) unit) := by
+  rw [mul_tt_eq]
+  have hr' : x.hi.toInt * y.hi.toInt = 0 ∨
+      ((2 : Int) ^ 1188 ≤ |x.hi.toInt * y.hi.toInt| ∧ |x.hi.toInt * y.hi.toInt| < (2 : Int) ^ 3171) := by
+    rcases hr with h | ⟨h1, h2⟩
+    · exact Or.inl h
+    · exact Or.inr ⟨h1, lt_trans h2 (pow_lt_pow_right₀ (by norm_num) (by norm_num))⟩
+  obtain ⟨Q, hQ, wh, wl⟩ := new_mul_words hvx.1 hvy.1 hwx.1 hwy.1 hr'
+  refine ⟨Q, hQ, ?_⟩
+  have hUi : (0 : Int) < (unit : Int) := Int.natCast_pos.2 unit_pos
+  have mx := abs_lo_le_of_half_ulp hvx.two_mul_abs_lo_le
+  have my := abs_lo_le_of_half_ulp hvy.two_mul_abs_lo_le
+  -- the cross terms
+  have h1 : 2 ^ 53 * |x.hi.toInt * y.lo.toInt| ≤ |x.hi.toInt * y.hi.toInt| := by
+    rw [abs_mul, abs_mul, mul_left_comm]
+    exact mul_le_mul_of_nonneg_left my (abs_nonneg _)
+  have h2 : 2 ^ 53 * |x.lo.toInt * y.hi.toInt| ≤ |x.hi.toInt * y.hi.toInt| := by
+    rw [abs_mul, abs_mul, ← mul_assoc]
+    exact mul_le_mul_of_nonneg_right mx (abs_nonneg _)
+  have hz : 2 ^ 106 * |x.lo.toInt * y.lo.toInt| ≤ |x.hi.toInt * y.hi.toInt| := by
+    rw [abs_mul, abs_mul]
+    have := mul_le_mul mx my (by positivity) (abs_nonneg _)
+    have e : (2 : Int) ^ 53 * |x.lo.toInt| * (2 ^ 53 * |y.lo.toInt|)
+        = 2 ^ 106 * (|x.lo.toInt| * |y.lo.toInt|) := by ring
+    rwa [e] at this
+  -- the magnitude of the leading product
+  have hAlt : |x.hi.toInt * y.hi.toInt| < 2 ^ 2095 * (unit : Int) := by
+    rcases hr with h | ⟨_, h⟩
+    · rw [h, abs_zero]; positivity
+    · rwa [two_pow_3169, ← unit_cast_eq] at h
+  have hQlt : |Q| < 2 ^ 2095 := by
+    rw [hQ, abs_mul, abs_of_pos hUi] at hAlt
+    exact lt_of_mul_lt_mul_right hAlt (le_of_lt hUi)
+  have e2097 : (2 : Int) ^ 2097 * (unit : Int) = 4 * (2 ^ 2095 * (unit : Int)) := by
+    rw [two_pow_2097]; ring
+  -- `tl0`
+  have b0 := abs_rqI_mul_le (x.lo.toInt * y.lo.toInt) unit_pos
+  have v0 := mul_spec hvx.2.1 hvy.2.1 (roundQ_natAbs_le_maxFin (by rw [e2097]; have := abs_nonneg (x.lo.toInt * y.lo.toInt); omega))
+  -- `tl1`
+  have n1 := abs_add_le (x.hi.toInt * y.lo.toInt) (rqI (x.lo.toInt * y.lo.toInt) unit * (unit : Int))
+  have b1 := abs_rqI_mul_le (x.hi.toInt * y.lo.toInt + rqI (x.lo.toInt * y.lo.toInt) unit * (unit : Int)) unit_pos
+  have v1 := fma_spec hvx.1 hvy.2.1 v0.1 (by
+    rw [v0.2]; exact roundQ_natAbs_le_maxFin (by
+      rw [e2097]; have := abs_nonneg (x.lo.toInt * y.lo.toInt); have := abs_nonneg (x.hi.toInt * y.lo.toInt); omega))
+  rw [v0.2] at v1
+  generalize htl0 : rqI (x.lo.toInt * y.lo.toInt) unit = tl0 at *
+  -- `cl2`
+  have n2 := abs_add_le (x.lo.toInt * y.hi.toInt) (rqI (x.hi.toInt * y.lo.toInt + tl0 * (unit : Int)) unit * (unit : Int))
+  have b2 := abs_rqI_mul_le (x.lo.toInt * y.hi.toInt
+    + rqI (x.hi.toInt * y.lo.toInt + tl0 * (unit : Int)) unit * (unit : Int)) unit_pos
+  have pz := abs_nonneg (x.lo.toInt * y.lo.toInt)
+  have pb1 := abs_nonneg (x.hi.toInt * y.lo.toInt)
+  have pb2 := abs_nonneg (x.lo.toInt * y.hi.toInt)
+  have v2 := fma_spec hvx.2.1 hvy.1 v1.1 (by
+    rw [v1.2]; exact roundQ_natAbs_le_maxFin (by rw [e2097]; omega))
+  rw [v1.2] at v2
+  generalize htl1 : rqI (x.hi.toInt * y.lo.toInt + tl0 * (unit : Int)) unit = tl1 at *
+  generalize hcl2 : rqI (x.lo.toInt * y.hi.toInt + tl1 * (unit : Int)) unit = cl2 at *
+  -- `|cl2| ≤ 2^-49 |Q|`, `|cl1| ≤ 2^-53 |Q|`
+  have hcl2Q : 2 ^ 49 * |cl2| ≤ |Q| := by
+    have h : 2 ^ 49 * |cl2| * (unit : Int) ≤ |Q| * (unit : Int) := by
+      have e : 2 ^ 49 * |cl2| * (unit : Int) = 2 ^ 49 * |cl2 * (unit : Int)| := by
+        rw [abs_mul, abs_of_pos hUi]; ring
+      rw [e, ← abs_of_pos hUi, ← abs_mul, ← hQ, abs_of_pos hUi]
+      omega
+    exact le_of_mul_le_mul_right h hUi
+  have hcl1Q := rel_err_rnI Q
+  rw [abs_sub_comm] at hcl1Q
+  have hQ2 : |Q| ≤ 2 * |rnI Q| := by
+    rw [abs_rnI, ← Int.natCast_natAbs Q]
+    have := le_two_mul_rn53 Q.natAbs
+    exact_mod_cast this
+  have n3 := abs_add_le (Q - rnI Q) cl2
+  -- `cl3`
+  have v3 := wl.add ⟨v2.1, v2.2⟩ (le_trans (by omega) two_pow_2097_le_maxFin_int)
+  have hab : |(F64.add (TwoFloat.new_mul x.hi y.hi).lo
+      (F64.fma x.lo y.hi (F64.fma x.hi y.lo (F64.mul x.lo y.lo)))).toInt|
+      ≤ |(TwoFloat.new_mul x.hi y.hi).hi.toInt| := by
+    rw [v3.2, wh.2]
+    exact abs_rnI_le (repI_rnI Q) (by have := abs_nonneg Q; linarith)
+  have mch : |rnI Q| ≤ 2 ^ 2095 := abs_rnI_le_pow (le_of_lt hQlt)
+  have hov : rn53 ((TwoFloat.new_mul x.hi y.hi).hi.toInt + (F64.add (TwoFloat.new_mul x.hi y.hi).lo
+      (F64.fma x.lo y.hi (F64.fma x.hi y.lo (F64.mul x.lo y.lo)))).toInt).natAbs ≤ maxFin := by
+    apply rn53_natAbs_le_of_abs_le_2097
+    have := abs_add_le (TwoFloat.new_mul x.hi y.hi).hi.toInt (F64.add (TwoFloat.new_mul x.hi y.hi).lo
+      (F64.fma x.lo y.hi (F64.fma x.hi y.lo (F64.mul x.lo y.lo)))).toInt
+    rw [wh.2] at hab this ⊢
+    rw [two_pow_2097]
+    omega
+  have key := fast_two_sum_spec wh.1 v3.1 (new_mul_WF _ _).1 (add_WF _ _) hab hov
+  refine ⟨key.2.2.1, ?_⟩
+  rw [key.2.1, wh.2, v3.2]
+
+theorem cross_bounds {x y : TwoFloat} (hvx : x.Valid) (hvy : y.Valid) :
+    2 ^ 53 * |x.hi.toInt * y.lo.toInt| ≤ |x.hi.toInt * y.hi.toInt| ∧
+    2 ^ 53 * |x.lo.toInt * y.hi.toInt| ≤ |x.hi.toInt * y.hi.toInt| ∧
+    2 ^ 106 * |x.lo.toInt * y.lo.toInt| ≤ |x.hi.toInt * y.hi.toInt| := by
+  have mx := abs_lo_le_of_half_ulp hvx.two_mul_abs_lo_le
+  have my := abs_lo_le_of_half_ulp hvy.two_mul_abs_lo_le
+  refine ⟨?_, ?_, ?_⟩
+  · rw [abs_mul, abs_mul, mul_left_comm]
+    exact mul_le_mul_of_nonneg_left my (abs_nonneg _)
+  · rw [abs_mul, abs_mul, ← mul_assoc]
+    exact mul_le_mul_of_nonneg_right mx (abs_nonneg _)
+  · rw [abs_mul, abs_mul]
+    have := mul_le_mul mx my (by positivity) (abs_nonneg _)
+    have e : (2 : Int) ^ 53 * |x.lo.toInt| * (2 ^ 53 * |y.lo.toInt|)
+        = 2 ^ 106 * (|x.lo.toInt| * |y.lo.toInt|) := by ring
+    rwa [e] at this
+
+/-- **C04, `TwoFloat * TwoFloat` (DWTimesDW3), PARTIAL: relative error `≤ 7u²`** on the wide range
+"`x.hi·y.hi` is `0` or in `[2^-960, 2^1021)`" (the paper's / the property's constant is `5u² = 5·2^-106`; see
+`mul_tt_bound_5u2_12u3_partial` for the sharper statement on the property's word range). -/
+theorem mul_tt_bound_7u2_partial {x y : TwoFloat} (hvx : x.Valid) (hwx : x.WF) (hvy : y.Valid) (hwy : y.WF)
+    (hr : x.hi.toInt * y.hi.toInt = 0 ∨
+      ((2 : Int) ^ 1188 ≤ |x.hi.toInt * y.hi.toInt| ∧ |x.hi.toInt * y.hi.toInt| < (2 : Int) ^ 3169)) :
+    (arithmetic.impl_Mul_rTwoFloat_for_rTwoFloat.mul x y).Valid ∧
+    |(arithmetic.impl_Mul_rTwoFloat_for_rTwoFloat.mul x y).V * (unit : Int) - x.V * y.V| * 2 ^ 106
+      ≤ 7 * |x.V * y.V| := by
+  obtain ⟨Q, hQ, hV, hval⟩ := mul_tt_values hvx hwx hvy hwy hr
+  refine ⟨hV, ?_⟩
+  rw [hval]
+  obtain ⟨h1, h2, hz⟩ := cross_bounds hvx hvy
+  have hlow : x.hi.toInt * y.hi.toInt = 0 ∨ 2 ^ 114 * (unit : Int) ≤ |x.hi.toInt * y.hi.toInt| := by
+    rcases hr with h | ⟨h, _⟩
+    · exact Or.inl h
+    · right; rwa [two_pow_1188, ← unit_cast_eq] at h
+  have h := dwtimesdw_err_7u2' unit_pos hQ h1 h2 hz hlow rfl rfl rfl rfl
+  have eP : x.V * y.V = x.hi.toInt * y.hi.toInt + x.hi.toInt * y.lo.toInt + x.lo.toInt * y.hi.toInt
+      + x.lo.toInt * y.lo.toInt := by unfold TwoFloat.V; ring
+  rw [eP, mul_comm _ ((2 : Int) ^ 106)]
+  exact h
+
+end TwoFloat
+
+/-! ## 10. DWTimesDW3 on integers: the binade analysis, `5u² + 12u³` -/
+
+namespace F64
+
+/-- half-ulp error of a rounded quotient below `2^53·(U·2^m)` -/
+theorem rqI_err_of_lt {p : Int} {U m : Nat} (hU : 0 < U) (h : |p| < 2 ^ 53 * ((U : Int) * 2 ^ m)) :
+    2 * |p + -(rqI p U) * (U : Int)| ≤ (U : Int) * 2 ^ m := by
+  have he := abs_sub_rqI_mul p hU
+  have hk : Nat.log2 (p.natAbs / U) - 52 ≤ m := by
+    apply log2_sub_le
+    rw [Nat.div_lt_iff_lt_mul hU]
+    rw [← Int.natCast_natAbs p] at h
+    have h' : p.natAbs < 2 ^ 53 * (U * 2 ^ m) := by exact_mod_cast h
+    calc p.natAbs < 2 ^ 53 * (U * 2 ^ m) := h'
+      _ = 2 ^ 53 * 2 ^ m * U := by ring
+  have hp : (2 : Int) ^ (Nat.log2 (p.natAbs / U) - 52) ≤ 2 ^ m := pow_le_pow_right₀ (by norm_num) hk
+  exact le_trans he (mul_le_mul_of_nonneg_left hp (Int.natCast_nonneg U))
+
+/-- the 2Prod residual `(Q - RN Q)·U` when `|Q·U| < 2^53·(U·2^m)` -/
+theorem resid_le_of_lt {Q : Int} {U m : Nat} (hU : 0 < U) (h : |Q * (U : Int)| < 2 ^ 53 * ((U : Int) * 2 ^ m)) :
+    2 * (|Q - rnI Q| * (U : Int)) ≤ (U : Int) * 2 ^ m := by
+  have hUi : (0 : Int) < (U : Int) := Int.natCast_pos.2 hU
+  rw [abs_mul, abs_of_pos hUi] at h
+  have hq : |Q| < 2 ^ 53 * 2 ^ m := by
+    have e : (2 : Int) ^ 53 * ((U : Int) * 2 ^ m) = 2 ^ 53 * 2 ^ m * (U : Int) := by ring
+    rw [e] at h
+    exact lt_of_mul_lt_mul_right h (le_of_lt hUi)
+  have hk := ulpexp_le_of_abs_lt hq
+  have ew := two_mul_abs_rnI_sub_le Q
+  rw [abs_sub_comm] at ew
+  push_cast at ew
+  have hp : (2 : Int) ^ (Nat.log2 Q.natAbs - 52) ≤ 2 ^ m := pow_le_pow_right₀ (by norm_num) hk
+  have h3 : 2 * |Q - rnI Q| ≤ 2 ^ m := le_trans ew hp
+  calc 2 * (|Q - rnI Q| * (U : Int)) = (2 * |Q - rnI Q|) * (U : Int) := by ring
+    _ ≤ 2 ^ m * (U : Int) := mul_le_mul_of_nonneg_right h3 (le_of_lt hUi)
+    _ = (U : Int) * 2 ^ m := by ring
+
+/-- rounding error (times `U`) of an integer `n` with `|n|·U < 2^53·(U·2^m)` -/
+theorem rnI_err_mul_of_lt {n : Int} {U m : Nat} (hU : 0 < U) (h : |n| * (U : Int) < 2 ^ 53 * ((U : Int) * 2 ^ m)) :
+    2 * (|rnI n - n| * (U : Int)) ≤ (U : Int) * 2 ^ m := by
+  have hUi : (0 : Int) < (U : Int) := Int.natCast_pos.2 hU
+  have hq : |n| < 2 ^ 53 * 2 ^ m := by
+    have e : (2 : Int) ^ 53 * ((U : Int) * 2 ^ m) = 2 ^ 53 * 2 ^ m * (U : Int) := by ring
+    rw [e] at h
+    exact lt_of_mul_lt_mul_right h (le_of_lt hUi)
+  have hk := ulpexp_le_of_abs_lt hq
+  have ew := two_mul_abs_rnI_sub_le n
+  push_cast at ew
+  have hp : (2 : Int) ^ (Nat.log2 n.natAbs - 52) ≤ 2 ^ m := pow_le_pow_right₀ (by norm_num) hk
+  have h3 : 2 * |rnI n - n| ≤ 2 ^ m := le_trans ew hp
+  calc 2 * (|rnI n - n| * (U : Int)) = (2 * |rnI n - n|) * (U : Int) := by ring
+    _ ≤ 2 ^ m * (U : Int) := mul_le_mul_of_nonneg_right h3 (le_of_lt hUi)
+    _ = (U : Int) * 2 ^ m := by ring
+
+end F64
+
+namespace F64
+
+/-- **DWTimesDW3 in the crate's form, binade analysis.**  High words normal (`ulp` exponents `ax, ay ≠ 0`), low
+words at most half an ulp, `ulp(xh)·ulp(yh) = 4·U·2^j` with `j ≥ 67` (no underflow anywhere near the `u³` level):
+the four rounding errors together are at most `(5u² + 12u³)` times the exact product. -/
+theorem dwtimesdw_err_5u2 {xh xl yh yl Q : Int} {U j : Nat} (hU : 0 < U) (hxh : RepI xh) (hyh : RepI yh)
+    (hx : 2 * |xl| ≤ 2 ^ (Nat.log2 xh.natAbs - 52)) (hy : 2 * |yl| ≤ 2 ^ (Nat.log2 yh.natAbs - 52))
+    (hax : Nat.log2 xh.natAbs - 52 ≠ 0) (hay : Nat.log2 yh.natAbs - 52 ≠ 0)
+    (hκ : (2 : Int) ^ (Nat.log2 xh.natAbs - 52) * 2 ^ (Nat.log2 yh.natAbs - 52) = 4 * ((U : Int) * 2 ^ j))
+    (hj : 67 ≤ j) (hQ : xh * yh = Q * (U : Int))
+    {tl0 tl1 cl2 cl3 : Int} (ht0 : tl0 = rqI (xl * yl) U) (ht1 : tl1 = rqI (xh * yl + tl0 * (U : Int)) U)
+    (hc2 : cl2 = rqI (xl * yh + tl1 * (U : Int)) U) (hc3 : cl3 = rnI (Q - rnI Q + cl2)) :
+    2 ^ 159 * |(rnI Q + cl3) * (U : Int) - (xh + xl) * (yh + yl)|
+      ≤ (5 * 2 ^ 53 + 12) * |(xh + xl) * (yh + yl)| := by
+  have hUi : (0 : Int) < (U : Int) := Int.natCast_pos.2 hU
+  have f1 := ulp_mul_le_abs hax
+  have f2 := hxh.add_ulp_le
+  have f3 := ulp_mul_le_abs hay
+  have f4 := hyh.add_ulp_le
+  have pux := two_pow_pos' (Nat.log2 xh.natAbs - 52)
+  have puy := two_pow_pos' (Nat.log2 yh.natAbs - 52)
+  generalize (2 : Int) ^ (Nat.log2 xh.natAbs - 52) = ux at *
+  generalize (2 : Int) ^ (Nat.log2 yh.natAbs - 52) = uy at *
+  have hUκ : 2 ^ 67 * (U : Int) ≤ (U : Int) * 2 ^ j := by
+    rw [mul_comm]
+    exact mul_le_mul_of_nonneg_left (pow_le_pow_right₀ (by norm_num) hj) (le_of_lt hUi)
+  have e1 : (U : Int) * 2 ^ (j + 1) = 2 * ((U : Int) * 2 ^ j) := by rw [pow_succ]; ring
+  have e2 : (U : Int) * 2 ^ (j + 2) = 4 * ((U : Int) * 2 ^ j) := by rw [pow_add]; ring
+  have e3 : (U : Int) * 2 ^ (j + 3) = 8 * ((U : Int) * 2 ^ j) := by rw [pow_add]; ring
+  have e54 : (U : Int) * 2 ^ (j + 54) = 2 ^ 54 * ((U : Int) * 2 ^ j) := by rw [pow_add]; ring
+  have e55 : (U : Int) * 2 ^ (j + 55) = 2 ^ 55 * ((U : Int) * 2 ^ j) := by rw [pow_add]; ring
+  have pκ : (0 : Int) < (U : Int) * 2 ^ j := mul_pos hUi (two_pow_pos' j)
+  -- products of magnitudes
+  have pAx := abs_nonneg xh
+  have pAy := abs_nonneg yh
+  have pLx := abs_nonneg xl
+  have pLy := abs_nonneg yl
+  have g1 : 2 ^ 54 * ((U : Int) * 2 ^ j) ≤ |xh| * uy := by
+    have := mul_le_mul_of_nonneg_right f1 (le_of_lt puy)
+    have e : (2 : Int) ^ 52 * ux * uy = 2 ^ 52 * (ux * uy) := by ring
+    rw [e, hκ] at this
+    linarith
+  have g2 : |xh| * uy + 4 * ((U : Int) * 2 ^ j) ≤ 2 ^ 55 * ((U : Int) * 2 ^ j) := by
+    have := mul_le_mul_of_nonneg_right f2 (le_of_lt puy)
+    have e : (2 : Int) ^ 53 * ux * uy = 2 ^ 53 * (ux * uy) := by ring
+    have e' : (|xh| + ux) * uy = |xh| * uy + ux * uy := by ring
+    rw [e, e', hκ] at this
+    linarith
+  have g3 : 2 ^ 54 * ((U : Int) * 2 ^ j) ≤ ux * |yh| := by
+    have := mul_le_mul_of_nonneg_left f3 (le_of_lt pux)
+    have e : ux * ((2 : Int) ^ 52 * uy) = 2 ^ 52 * (ux * uy) := by ring
+    rw [e, hκ] at this
+    linarith
+  have g4 : ux * |yh| + 4 * ((U : Int) * 2 ^ j) ≤ 2 ^ 55 * ((U : Int) * 2 ^ j) := by
+    have := mul_le_mul_of_nonneg_left f4 (le_of_lt pux)
+    have e : ux * ((2 : Int) ^ 53 * uy) = 2 ^ 53 * (ux * uy) := by ring
+    have e' : ux * (|yh| + uy) = ux * |yh| + ux * uy := by ring
+    rw [e, e', hκ] at this
+    linarith
+  have g5 : 2 * (|xh| * |yl|) ≤ |xh| * uy := by
+    have := mul_le_mul_of_nonneg_left hy pAx
+    linarith
+  have g6 : 2 * (|xl| * |yh|) ≤ ux * |yh| := by
+    have := mul_le_mul_of_nonneg_right hx pAy
+    linarith
+  have g7 : |xl| * |yl| ≤ (U : Int) * 2 ^ j := by
+    have := mul_le_mul hx hy (by positivity) (le_of_lt pux)
+    rw [hκ] at this
+    linarith
+  have g8 : 2 ^ 52 * (ux * |yh|) + 2 ^ 52 * (|xh| * uy) ≤ |xh| * |yh| + 2 ^ 106 * ((U : Int) * 2 ^ j) := by
+    have := mul_nonneg (sub_nonneg.2 f1) (sub_nonneg.2 f3)
+    have e : (|xh| - 2 ^ 52 * ux) * (|yh| - 2 ^ 52 * uy)
+        = |xh| * |yh| - 2 ^ 52 * (ux * |yh|) - 2 ^ 52 * (|xh| * uy) + 2 ^ 104 * (ux * uy) := by ring
+    rw [e, hκ] at this
+    linarith
+  have g9 : |xh| * |yh| < 2 ^ 108 * ((U : Int) * 2 ^ j) := by
+    have h1 : |xh| < 2 ^ 53 * ux := by linarith
+    have h2 : |yh| < 2 ^ 53 * uy := by linarith
+    have := mul_lt_mul'' h1 h2 pAx pAy
+    have e : (2 : Int) ^ 53 * ux * (2 ^ 53 * uy) = 2 ^ 106 * (ux * uy) := by ring
+    rw [e, hκ] at this
+    linarith
+  -- abs of the products
+  have a0 : |xh * yh| = |xh| * |yh| := abs_mul _ _
+  have a1 : |xh * yl| = |xh| * |yl| := abs_mul _ _
+  have a2 : |xl * yh| = |xl| * |yh| := abs_mul _ _
+  have a3 : |xl * yl| = |xl| * |yl| := abs_mul _ _
+  -- rounding errors
+  have r1 := rqI_err_le (xl * yl) hU
+  rw [← ht0] at r1
+  have m0 : |tl0 * (U : Int)| ≤ |xl * yl| + |xl * yl + -tl0 * (U : Int)| := by
+    have := abs_add_le (xl * yl) (-(xl * yl + -tl0 * (U : Int)))
+    rw [abs_neg] at this
+    have e : xl * yl + -(xl * yl + -tl0 * (U : Int)) = tl0 * (U : Int) := by ring
+    rwa [e] at this
+  have n2 := abs_add_le (xh * yl) (tl0 * (U : Int))
+  have r2 := rqI_err_of_lt (p := xh * yl + tl0 * (U : Int)) (m := j + 1) hU (by rw [e1]; linarith)
+  rw [← ht1, e1] at r2
+  have m1 : |tl1 * (U : Int)| ≤ |xh * yl + tl0 * (U : Int)| + |xh * yl + tl0 * (U : Int) + -tl1 * (U : Int)| := by
+    have := abs_add_le (xh * yl + tl0 * (U : Int)) (-(xh * yl + tl0 * (U : Int) + -tl1 * (U : Int)))
+    rw [abs_neg] at this
+    have e : xh * yl + tl0 * (U : Int) + -(xh * yl + tl0 * (U : Int) + -tl1 * (U : Int)) = tl1 * (U : Int) := by ring
+    rwa [e] at this
+  have n3 := abs_add_le (xl * yh) (tl1 * (U : Int))
+  have r3 := rqI_err_of_lt (p := xl * yh + tl1 * (U : Int)) (m := j + 2) hU (by rw [e2]; linarith)
+  rw [← hc2, e2] at r3
+  have m2 : |cl2 * (U : Int)| ≤ |xl * yh + tl1 * (U : Int)| + |xl * yh + tl1 * (U : Int) + -cl2 * (U : Int)| := by
+    have := abs_add_le (xl * yh + tl1 * (U : Int)) (-(xl * yh + tl1 * (U : Int) + -cl2 * (U : Int)))
+    rw [abs_neg] at this
+    have e : xl * yh + tl1 * (U : Int) + -(xl * yh + tl1 * (U : Int) + -cl2 * (U : Int)) = cl2 * (U : Int) := by ring
+    rwa [e] at this
+  have c1a : |xh * yh| < 2 ^ 107 * ((U : Int) * 2 ^ j) →
+      2 * (|Q - rnI Q| * (U : Int)) ≤ 2 ^ 54 * ((U : Int) * 2 ^ j) := by
+    intro h
+    have := resid_le_of_lt (Q := Q) (m := j + 54) hU (by rw [← hQ, e54]; linarith)
+    rwa [e54] at this
+  have c1b : 2 * (|Q - rnI Q| * (U : Int)) ≤ 2 ^ 55 * ((U : Int) * 2 ^ j) := by
+    have := resid_le_of_lt (Q := Q) (m := j + 55) hU (by rw [← hQ, e55, a0]; linarith)
+    rwa [e55] at this
+  have n4 : |Q - rnI Q + cl2| * (U : Int) ≤ |Q - rnI Q| * (U : Int) + |cl2 * (U : Int)| := by
+    have := mul_le_mul_of_nonneg_right (abs_add_le (Q - rnI Q) cl2) (le_of_lt hUi)
+    rw [abs_mul cl2, abs_of_pos hUi]
+    linarith
+  have r4a : |Q - rnI Q + cl2| * (U : Int) < 2 ^ 55 * ((U : Int) * 2 ^ j) →
+      2 * (|cl3 - (Q - rnI Q + cl2)| * (U : Int)) ≤ 4 * ((U : Int) * 2 ^ j) := by
+    intro h
+    have := rnI_err_mul_of_lt (n := Q - rnI Q + cl2) (m := j + 2) hU (by rw [e2]; linarith)
+    rwa [e2, ← hc3] at this
+  have r4b : |Q - rnI Q + cl2| * (U : Int) < 2 ^ 56 * ((U : Int) * 2 ^ j) →
+      2 * (|cl3 - (Q - rnI Q + cl2)| * (U : Int)) ≤ 8 * ((U : Int) * 2 ^ j) := by
+    intro h
+    have := rnI_err_mul_of_lt (n := Q - rnI Q + cl2) (m := j + 3) hU (by rw [e3]; linarith)
+    rwa [e3, ← hc3] at this
+  -- the error is the sum of the four rounding errors
+  have herr : (rnI Q + cl3) * (U : Int) - (xh + xl) * (yh + yl)
+      = -((xl * yl + -tl0 * (U : Int)) + (xh * yl + tl0 * (U : Int) + -tl1 * (U : Int))
+          + (xl * yh + tl1 * (U : Int) + -cl2 * (U : Int))) + (cl3 - (Q - rnI Q + cl2)) * (U : Int) := by
+    have : (xh + xl) * (yh + yl) = Q * (U : Int) + xh * yl + xl * yh + xl * yl := by rw [← hQ]; ring
+    rw [this]; ring
+  have t1 := abs_add_le (-((xl * yl + -tl0 * (U : Int)) + (xh * yl + tl0 * (U : Int) + -tl1 * (U : Int))
+          + (xl * yh + tl1 * (U : Int) + -cl2 * (U : Int)))) ((cl3 - (Q - rnI Q + cl2)) * (U : Int))
+  rw [abs_neg, abs_mul (cl3 - (Q - rnI Q + cl2)), abs_of_pos hUi] at t1
+  have t2 := abs_add_le ((xl * yl + -tl0 * (U : Int)) + (xh * yl + tl0 * (U : Int) + -tl1 * (U : Int)))
+    (xl * yh + tl1 * (U : Int) + -cl2 * (U : Int))
+  have t3 := abs_add_le (xl * yl + -tl0 * (U : Int)) (xh * yl + tl0 * (U : Int) + -tl1 * (U : Int))
+  have hP : |xh * yh| ≤ |(xh + xl) * (yh + yl)| + |xh * yl| + |xl * yh| + |xl * yl| := by
+    have p1 := abs_add_le ((xh + xl) * (yh + yl)) (-(xh * yl + xl * yh + xl * yl))
+    have p2 := abs_add_le (xh * yl + xl * yh) (xl * yl)
+    have p3 := abs_add_le (xh * yl) (xl * yh)
+    rw [abs_neg] at p1
+    have e : (xh + xl) * (yh + yl) + -(xh * yl + xl * yh + xl * yl) = xh * yh := by ring
+    rw [e] at p1
+    linarith
+  rw [herr]
+  rw [a0] at hP c1a
+  rw [a1] at hP n2
+  rw [a2] at hP n3
+  rw [a3] at hP m0 r1
+  generalize |xl * yl + -tl0 * (U : Int)| = D1 at *
+  generalize |xh * yl + tl0 * (U : Int) + -tl1 * (U : Int)| = D2 at *
+  generalize |xl * yh + tl1 * (U : Int) + -cl2 * (U : Int)| = D3 at *
+  generalize |cl3 - (Q - rnI Q + cl2)| * (U : Int) = D4 at *
+  generalize |Q - rnI Q| * (U : Int) = C1 at *
+  generalize |Q - rnI Q + cl2| * (U : Int) = N4 at *
+  generalize |xh * yl + tl0 * (U : Int)| = N2 at *
+  generalize |xl * yh + tl1 * (U : Int)| = N3 at *
+  generalize |tl0 * (U : Int)| = T0 at *
+  generalize |tl1 * (U : Int)| = T1 at *
+  generalize |cl2 * (U : Int)| = C2 at *
+  generalize |xh| * |yh| = A at *
+  generalize |xh| * |yl| = B1 at *
+  generalize |xl| * |yh| = B2 at *
+  generalize |xl| * |yl| = Z at *
+  generalize |xh| * uy = p at *
+  generalize ux * |yh| = q at *
+  generalize (U : Int) * 2 ^ j = κ at *
+  generalize |(xh + xl) * (yh + yl)| = P at *
+  rcases lt_or_ge A (2 ^ 107 * κ) with hA | hA
+  · have hC1 := c1a hA
+    rcases lt_or_ge N4 (2 ^ 55 * κ) with hN | hN
+    · have hD4 := r4a hN
+      linarith
+    · have hD4 := r4b (by linarith)
+      linarith
+  · have hD4 := r4b (by linarith)
+    linarith
+
+end F64
+
+/-! ## 11. DWTimesDW3 on the model, `5u² + 12u³` on the property's range -/
+
+namespace TwoFloat
+
+open F64
+
+/-- the ulp exponents of two doubles of magnitude at least `2^-450` (scaled `2^624`) -/
+theorem ulp_prod_of_ge {a b : Int} (ha : 2 ^ 624 ≤ |a|) (hb : 2 ^ 624 ≤ |b|) :
+    Nat.log2 a.natAbs - 52 ≠ 0 ∧ Nat.log2 b.natAbs - 52 ≠ 0 ∧
+    ∃ j : Nat, 67 ≤ j ∧ (2 : Int) ^ (Nat.log2 a.natAbs - 52) * 2 ^ (Nat.log2 b.natAbs - 52)
+      = 4 * ((unit : Int) * 2 ^ j) := by
+  have h1 : 572 ≤ Nat.log2 a.natAbs - 52 :=
+    le_ulpexp_of_le_abs (by rw [← pow_add]; exact ha)
+  have h2 : 572 ≤ Nat.log2 b.natAbs - 52 :=
+    le_ulpexp_of_le_abs (by rw [← pow_add]; exact hb)
+  obtain ⟨j, hj⟩ : ∃ j, Nat.log2 a.natAbs - 52 + (Nat.log2 b.natAbs - 52) = 2 + (1074 + j) :=
+    ⟨Nat.log2 a.natAbs - 52 + (Nat.log2 b.natAbs - 52) - 1076, by omega⟩
+  refine ⟨by omega, by omega, j, by omega, ?_⟩
+  rw [← pow_add, unit_cast_eq, hj, pow_add, pow_add]
+  norm_num
+
+/-- **C04, `TwoFloat * TwoFloat` (DWTimesDW3), PARTIAL: relative error `≤ 5u² + 12u³`** on the property's range
+(high words of magnitude in `[2^-450, 2^450]`, scaled `[2^624, 2^1524]`): `2^159·|err| ≤ (5·2^53 + 12)·|x·y|`.
+The property asks for `5u²` exactly (`|err|·2^106 ≤ 5·|x·y|`): the `12u³` term is the open gap. -/
+theorem mul_tt_bound_5u2_12u3_partial {x y : TwoFloat} (hvx : x.Valid) (hwx : x.WF) (hvy : y.Valid) (hwy : y.WF)
+    (hx : 2 ^ 624 ≤ x.hi.toInt.natAbs ∧ x.hi.toInt.natAbs ≤ 2 ^ 1524)
+    (hy : 2 ^ 624 ≤ y.hi.toInt.natAbs ∧ y.hi.toInt.natAbs ≤ 2 ^ 1524) :
+    (arithmetic.impl_Mul_rTwoFloat_for_rTwoFloat.mul x y).Valid ∧
+    |(arithmetic.impl_Mul_rTwoFloat_for_rTwoFloat.mul x y).V * (unit : Int) - x.V * y.V| * 2 ^ 159
+      ≤ (5 * 2 ^ 53 + 12) * |x.V * y.V| := by
+  have h1 : (2 : Int) ^ 624 ≤ |x.hi.toInt| := by rw [← Int.natCast_natAbs]; exact_mod_cast hx.1
+  have h2 : |x.hi.toInt| ≤ (2 : Int) ^ 1524 := by rw [← Int.natCast_natAbs]; exact_mod_cast hx.2
+  have h3 : (2 : Int) ^ 624 ≤ |y.hi.toInt| := by rw [← Int.natCast_natAbs]; exact_mod_cast hy.1
+  have h4 : |y.hi.toInt| ≤ (2 : Int) ^ 1524 := by rw [← Int.natCast_natAbs]; exact_mod_cast hy.2
+  have hr : x.hi.toInt * y.hi.toInt = 0 ∨
+      ((2 : Int) ^ 1188 ≤ |x.hi.toInt * y.hi.toInt| ∧ |x.hi.toInt * y.hi.toInt| < (2 : Int) ^ 3169) := by
+    right
+    rw [abs_mul]
+    constructor
+    · calc (2 : Int) ^ 1188 ≤ 2 ^ 624 * 2 ^ 624 := by
+            rw [← pow_add]; exact pow_le_pow_right₀ (by norm_num) (by norm_num)
+        _ ≤ |x.hi.toInt| * |y.hi.toInt| := mul_le_mul h1 h3 (by positivity) (abs_nonneg _)
+    · calc |x.hi.toInt| * |y.hi.toInt| ≤ 2 ^ 1524 * 2 ^ 1524 := mul_le_mul h2 h4 (abs_nonneg _) (by positivity)
+        _ < (2 : Int) ^ 3169 := by
+            rw [← pow_add]; exact pow_lt_pow_right₀ (by norm_num) (by norm_num)
+  obtain ⟨Q, hQ, hV, hval⟩ := mul_tt_values hvx hwx hvy hwy hr
+  refine ⟨hV, ?_⟩
+  rw [hval]
+  obtain ⟨hax, hay, j, hj, hκ⟩ := ulp_prod_of_ge h1 h3
+  have h := dwtimesdw_err_5u2 unit_pos hwx.1.repI hwy.1.repI hvx.two_mul_abs_lo_le hvy.two_mul_abs_lo_le
+    hax hay hκ hj hQ rfl rfl rfl rfl
+  have eP : x.V * y.V = (x.hi.toInt + x.lo.toInt) * (y.hi.toInt + y.lo.toInt) := by unfold TwoFloat.V; ring
+  rw [eP, mul_comm _ ((2 : Int) ^ 159)]
+  exact h
+
+end TwoFloat
